@@ -194,6 +194,9 @@ def run(out: core.Outcome) -> None:
                 out.violation({"config": name, **case, "overlap_stage_failed": failed, "trace": tr})
             elif not row["run"]["conform"]:
                 deviations += 1
+    from . import locsym
+
+    locsym.run_c02(out)
     n_random = 150 if out.tier == "quick" else 3000
     random_images(out, n_random)
     out.extra["deviations_from_operational_model_without_property_violation"] = deviations
